@@ -27,6 +27,7 @@ LENSES = {
     "C05": "c05",
     "C06": "c06",
     "C07": "c07",
+    "C08": "c08",
     "C09": "c09",
     "C12": "c12",
     "C13": "c13",
